@@ -260,6 +260,12 @@ def check_corpus(run_, ctx, rule="D"):
         def impl_methods(self, trait, name):
             return F.impl_methods(trait, name)
     FF = _F()
+    return compare_pairs(run_, rule, cr, FF)
+
+
+def compare_pairs(run_, rule, cr, FF, only_tree_shaped=False):
+    """every type of crate `cr` that has both a Schema constant and a Serialize impl in that crate: the schema tree must be the
+    Serializer call tree (kinds, variant indices and names, field names/order, field types)"""
     schemas = {}
     for c in cr.consts:
         if c["name"] == "SCHEMA" and (c.get("impl_trait") or "").endswith("::Schema"):
@@ -270,13 +276,15 @@ def check_corpus(run_, ctx, rule="D"):
         base = re.sub(r"<.*$", "", st)
         key = base
         if st not in schemas or st not in sers:
-            if st in schemas:
+            if st in schemas and not only_tree_shaped:
                 run_.bad(rule, key, "corpus type has a Schema but no Serialize impl in the analysed crate")
             continue
         n += 1
         c = schemas[st]
         site = "%s:%s" % (c.get("file"), c.get("line"))
         sch = schema_term(c["hir"])
+        if only_tree_shaped and sch[0] not in ("Struct", "Enum"):
+            continue        # a leaf kind (e.g. the schema-of-schema node): judged against the oracle table by rule B
         arms = c15.ser_arms(FF, sers[st])
         probs = []
         if sch[0] == "Struct":
@@ -338,6 +346,9 @@ def run(run_, ctx):
             run_.note("configuration C (alloc without std) not analysed: %s" % e)
     n = check_corpus(run_, ctx)
     run_.floor("D", 29)
+    # the crate's own types that are both serialized (serde derive) and described by a hand-written or derived Schema (e.g. `Key`)
+    nl = compare_pairs(run_, "L", F.crate("postcard_schema"), F, only_tree_shaped=True)
+    run_.floor("L", 1)
     run_.explanation = (
         "Every `impl Schema` constant of postcard-schema (58 in the std configuration) is read as a resolved HIR tree and compared with the oracle row for its self type; "
         "unknown impls fail closed. A corpus crate of derived types is compiled against /repo's derive and analysed by the same driver: per type the serde_derive-generated "
